@@ -40,7 +40,7 @@ type fakeStream struct {
 	// error, as it may for a while on a real stream
 	recvBroken bool
 	msgs       int
-	ambig  bool
+	ambig      bool
 }
 
 func (s *fakeStream) Send(sub, unsub []string) error {
